@@ -88,6 +88,13 @@ Theorem error_wrapping_a_safe_one_is_not_forwarded : forall p t,
 Proof. exact ProofsErr.wraps_safe_not_forwarded. Qed.
 Print Assumptions error_wrapping_a_safe_one_is_not_forwarded.
 
+(** A user-defined SanitizedError (its SanitizedError() text, [e_text], need not be its Error() text) is
+    handed on without a path; the envelope carries the SanitizedError() text. *)
+Theorem custom_sanitized_error_forwards_its_sanitized_text : forall p t,
+  nest p (mk_err ECustom t) = mk_perr (mk_err ECustom t) [] /\ sanitize (nest p (mk_err ECustom t)) = t.
+Proof. exact ProofsErr.custom_sanitized_forwarded. Qed.
+Print Assumptions custom_sanitized_error_forwards_its_sanitized_text.
+
 (** An initially failing subscription yields exactly one error envelope, then its closure. *)
 Theorem failing_subscription_reported_once_then_closed : forall id e,
   subscribe_initial id (RErr e) = [WError id (sanitize e); WClosed id].
